@@ -314,11 +314,16 @@ def r_literal_to_const(pr, rng):
     c = t["cap"]["v"]
     a = rng.choice([1, 2, 3, 7, 10])
     toks = [["lp"], ["int", c // a], ["op", "*"], ["int", a, "hex"], ["rp"], ["op", "+"], ["int", c % a]]
-    if rng.random() < 0.4:
+    r = rng.random()
+    if r < 0.3:
         toks = [["int", c + 5], ["op", "-"], ["int", 10], ["op", "/"], ["int", 2]]
+    elif r < 0.55:
+        # an inexact division with a negative dividend in between (floor division): c + 3 + (3 - 8) / 2 = c
+        toks = [["int", c + 3], ["op", "+"], ["lp"], ["int", 3], ["op", "-"], ["int", 8], ["rp"], ["op", "/"], ["int", 2]]
     name = "CX_" + gen.letters(rng.randrange(26 ** 3)).upper()
     ds = p["files"][fname]
-    ds.insert(ds.index(top), {"d": "const", "name": name, "v": {"e": "toks", "toks": toks}})
+    ds.insert(ds.index(top), {"d": "const", "name": name,
+                              "v": {"e": "toks", "toks": toks, "glue": rng.choice(["spaced", "tight", "left", "right"])}})
     t["cap"] = {"e": "ref", "path": [name]}
     return p, None, "capacity %d -> constant expression" % c
 
